@@ -45,6 +45,8 @@ static struct {
 	char buf[4096U];
 	size_t bi;
 	int fd;
+	/* set when a flush couldn't get rid of everything */
+	int err;
 } fd_aux;
 
 static ssize_t
@@ -56,6 +58,10 @@ fdflush(void)
 	     twr < tot &&
 		     (nwr = write(fd_aux.fd, fd_aux.buf + twr, tot - twr)) > 0;
 	     twr += nwr);
+	if (UNLIKELY(twr < (ssize_t)fd_aux.bi)) {
+		/* the rest is lost, leave a note for those who care */
+		fd_aux.err = 1;
+	}
 	fd_aux.bi = 0U;
 	return twr;
 }
